@@ -1,4 +1,5 @@
 import Ccp.Proofs.Asa
+import Ccp.Proofs.AsaX
 /-!
 # C20 — ASA object-groups and port specs expand to exactly the denoted networks/ports
 
@@ -8,7 +9,7 @@ Property theorems only; helper lemmas and the specification `Flatten` live in `C
 `asa_object_group_names`, `asa_object_group_network`, `asa_access_list`.
 -/
 namespace Ccp.C20
-open Ccp.Asa Ccp.Py
+open Ccp.Asa Ccp.Py Ccp.AsaX
 
 /-! ## port specifications -/
 
@@ -217,5 +218,86 @@ example : ∃ rank, Acyclic [(['B'], ⟨['B'], [.host ['h']]⟩), (['A'], ⟨['A
         intro m hm; simp at hm; subst hm
         exact ⟨by simp, fun g hg => by cases hg⟩
       · cases hk⟩
+
+/-! ## further entry points: L4Object equality / repr, group-object equality and counts, tables under another syntax -/
+
+/-- `L4Object.__eq__` compares the protocol and the port list. -/
+theorem l4_eq_iff (a b : L4) : l4Eq a b = true ↔ a.proto = b.proto ∧ a.ports = b.ports := by
+  simp [l4Eq]
+
+/-- **Equal objects denote the same ports**: for two specifications within their bounds on the
+same protocol, the objects are `==` exactly when the operators denote the same set of ports
+(`lt 3` and `range 1 2`, `neq 1` and `gt 1`, …); `!=` is the negation. -/
+theorem l4_eq_denotes (proto : Str) (hp : isProto proto) (op1 op2 : PortOp)
+    (hv1 : valid op1 = true) (hv2 : valid op2 = true) :
+    ∃ a b, mkL4 proto "asa".toList (specText op1) = .ok a ∧ mkL4 proto "asa".toList (specText op2) = .ok b ∧
+      (l4Eq a b = true ↔ ∀ k, Denotes op1 k ↔ Denotes op2 k) := by
+  obtain ⟨l1, h1, s1, m1, _⟩ := ports_denote proto hp op1 hv1
+  obtain ⟨l2, h2, s2, m2, _⟩ := ports_denote proto hp op2 hv2
+  refine ⟨⟨proto, l1⟩, ⟨proto, l2⟩, by unfold mkL4; rw [h1]; rfl, by unfold mkL4; rw [h2]; rfl, ?_⟩
+  rw [l4_eq_iff]
+  constructor
+  · rintro ⟨_, hl⟩ k
+    simp only at hl
+    rw [← m1 k, ← m2 k, hl]
+  · intro h
+    refine ⟨rfl, asc_ext l1 l2 s1 s2 (fun k => ?_)⟩
+    rw [m1 k, m2 k]; exact h k
+
+example : (do let a ← mkL4 "tcp".toList "asa".toList "lt 3".toList
+              let b ← mkL4 "tcp".toList "asa".toList "range 1 2".toList
+              let c ← mkL4 "udp".toList "asa".toList "range 1 2".toList
+              pure (l4Eq a b, l4Eq b c)).toOption = some (true, false) := by decide +kernel
+
+/-- `repr()` of an `L4Object` raises for every object (the source reads `CiscoRange.compressed_str`,
+an attribute that does not exist) — a defect outside the property, recorded as it is. -/
+theorem l4_repr_unavailable (a : L4) : l4Repr a = .error .attributeError := rfl
+
+/-- The `asa_*` tables are served under syntax `asa` only. -/
+theorem table_access_iff (syn : Str) : tableAccess syn = .ok () ↔ syn = "asa".toList := by
+  unfold tableAccess
+  by_cases h : syn = "asa".toList <;> simp [h]
+
+/-- Group objects compare (and hash) by line number and header text: `==` is reflexive,
+symmetric, `!=` is its negation, and the group objects of one configuration are pairwise
+different. -/
+theorem group_objects_eq (lines : List Str) :
+    (∀ a : GObj, objEq a a = true) ∧ (∀ a b : GObj, objEq a b = objEq b a) ∧
+    (∀ a b : GObj, objNe a b = !objEq a b) ∧
+    (∀ a b : GObj, objEq a b = true ↔ a.linenum = b.linenum ∧ a.text = b.text) ∧
+    (gobjs lines).Pairwise (fun a b => objEq a b = false) := by
+  refine ⟨by simp [objEq], ?_, fun _ _ => rfl, by simp [objEq], ?_⟩
+  · intro a b
+    simp only [objEq]
+    rw [Bool.eq_iff_iff]
+    simp only [Bool.and_eq_true, beq_iff_eq]
+    constructor <;> (rintro ⟨h1, h2⟩; exact ⟨h1.symm, h2.symm⟩)
+  · unfold gobjs
+    rw [List.pairwise_map]
+    refine (groupObjs_increasing 0 lines).imp ?_
+    intro s t hst
+    simp only [objEq, Bool.and_eq_false_iff, beq_eq_false_iff_ne, ne_eq]
+    left; omega
+
+/-- `network_count` is the length of `network_strings`; two groups have the same
+`hash_children` exactly when their `network_strings` agree (no hash collision assumed). -/
+theorem count_and_hash_children (a b : GObj) (x y : List Str) (ha : a.strings = .ok x) (hb : b.strings = .ok y) :
+    networkCount a = .ok x.length ∧ hcEq a b = .ok (x == y) := by
+  simp [networkCount, hcEq, ha, hb, Except.map]
+
+example : (gobjs demo).map (fun a => (a.linenum, (networkCount a).toOption)) = [(2, some 3), (6, some 1), (8, some 1)] := by
+  decide +kernel
+
+/-- **No history**: in a sequence of constructions carried out in one process, every answer is
+the answer of that construction alone, whatever was built before or after it (in particular the
+same `port_spec` under the other protocol: a service name is looked up in the table of the
+protocol at hand every time). -/
+theorem pseq_history_free (before after : List (Str × Str)) (proto spec : Str) :
+    pseq (before ++ (proto, spec) :: after) =
+      pseq before ++ l4 proto "asa".toList spec :: pseq after := by
+  simp [pseq]
+
+example : (pseq [("tcp".toList, "eq rtsp".toList), ("udp".toList, "eq rtsp".toList), ("udp".toList, "eq ssh".toList)]).map
+    (fun r => r.toOption) = [some [554], some [5004], none] := by decide +kernel
 
 end Ccp.C20
